@@ -369,6 +369,11 @@ func execRun(t *testing.T, sc *Scenario, x *X) (out runOutcome) {
 				s := fmt.Sprint(r)
 				if strings.Contains(s, "blocked goroutines remain") || strings.Contains(s, "deadlock: main bubble goroutine has exited") {
 					out.Abandoned++
+					if os.Getenv("VSIM_DEBUG") == "2" {
+						buf := make([]byte, 1<<20)
+						n := runtime.Stack(buf, true)
+						fmt.Fprintf(os.Stderr, "---- abandoned bubble: goroutines\n%s\n", buf[:n])
+					}
 					return
 				}
 				buf := make([]byte, 16<<10)
